@@ -1,7 +1,7 @@
 (* C12 — OpenID tokens go only to the right client and name the right user.
    Model: Model/OIDC.v authorize / token_endpoint / exec / valid, Model/Tokens.v c_userinfo. *)
 From Coq Require Import String ZArith NArith List Bool.
-From KM Require Import Base.Bytes Model.Tokens Model.OIDC Proofs.Tokens Proofs.OIDC Proofs.OIDCKeys.
+From KM Require Import Base.Bytes Model.Tokens Model.OIDC Proofs.Tokens Proofs.OIDC Proofs.OIDCKeys Proofs.OIDCAudience.
 Import ListNotations.
 Open Scope Z_scope.
 
@@ -73,10 +73,11 @@ Proof.
   destruct (c_userinfo (srv i) now (emit (srv i) t_issue a)); [discriminate M|reflexivity].
 Qed.
 
-(* the configuration of the witnesses below: client A with a secret, client B secret-less, RSA signer *)
+(* the configuration of the witnesses below: client A with a secret (it may choose audiences), client B
+   secret-less, RSA signer *)
 Definition idp0 : idp :=
-  {| srv := srv0; clients := [ {| cl_id := b "clientA"; cl_secret := b "secretA" |};
-                               {| cl_id := b "clientB"; cl_secret := [] |} ] |}.
+  {| srv := srv0; clients := [ {| cl_id := b "clientA"; cl_secret := b "secretA"; cl_allow_aud := true |};
+                               {| cl_id := b "clientB"; cl_secret := []; cl_allow_aud := false |} ] |}.
 
 (* ---------------------------------------------------------------- redirect_uri at the token endpoint *)
 
@@ -234,3 +235,68 @@ Example c12_flows :
                   || is_release (token_endpoint idp0 (1010 * NS) (treq0 code (Some (b "clientA", b "secretA")) [] [] []))
    | None => true end) = false.
 Proof. vm_compute. repeat split; reflexivity. Qed.
+
+(* ---------------------------------------------------------------- the audience parameter of the authorization request *)
+
+(* "That client as SOLE audience", for every server, client list, clock and token request - whatever
+   the code carries, in particular whatever access_audience the authorization step bound into it for a
+   client with allow_client_chose_audiences: the ID token of a release has exactly the seven members of
+   openIDConnectIDToken (iss, sub, aud, exp, iat, auth_time, nonce; nothing that could name a further
+   party), and its "aud" member is the one-element list holding the client id the caller
+   authenticated as. *)
+Theorem c12_idtoken_sole_audience : forall i now r idt act, token_endpoint i now r = Release idt act ->
+  map fst (t_claims idt) = ["iss"; "sub"; "aud"; "exp"; "iat"; "auth_time"; "nonce"]%string /\
+  lookup "aud" (t_claims idt) = Some (VList [fst (presented_creds r)]).
+Proof. exact idtoken_sole_audience. Qed.
+
+(* The audience parameter is invisible in the ID token: for every server, every client configuration
+   (allow_client_chose_audiences or not), every user, instant and authorization request [a], every
+   other value [aud] of the audience parameter (absent, under the client's domains or not: [ok] is
+   CorsOriginAllowed's verdict), and EVERY token request [r] - if both authorization requests are
+   accepted, then presenting the one code or the other gets the same verdict from the token endpoint
+   (released / refused with the same status), and on release the two ID tokens are equal. *)
+Theorem c12_idtoken_ignores_audience : forall i t_a u a aud ok code1 code2 now r,
+  authorize i t_a u a = Some code1 -> authorize i t_a u (with_audience a aud ok) = Some code2 ->
+  match token_endpoint i now (with_code r code1), token_endpoint i now (with_code r code2) with
+  | Release idt1 _, Release idt2 _ => idt1 = idt2
+  | Refuse s1, Refuse s2 => s1 = s2
+  | _, _ => False
+  end.
+Proof. exact idtoken_ignores_audience. Qed.
+
+(* What the parameter does change, in histories of any length: the ACCESS token's audience list is
+   empty when the authorization request named no audience, otherwise exactly [the first value of the
+   parameter; the userinfo URL] - and then the client is configured with allow_client_chose_audiences
+   and CorsOriginAllowed accepted that value.  The ID token names the client alone in both cases. *)
+Theorem c12_audience_chosen : forall i pre now r post idt act,
+  valid i [] (pre ++ OToken now r :: post) -> token_endpoint i now r = Release idt act ->
+  exists t_a u a c x,
+    In (OAuthorize t_a u a) pre /\ authorize i t_a u a = Some (tr_code r) /\
+    fst (presented_creds r) = ar_client a /\ find_client (ar_client a) (clients i) = Some c /\
+    lookup "aud" (t_claims idt) = Some (VList [ar_client a]) /\
+    dec_access (t_claims act) = Some x /\
+    x_aud x = (if nonempty (ar_audience a) then [ar_audience a; s_userinfo (srv i)] else []) /\
+    (ar_audience a <> [] -> cl_allow_aud c = true /\ ar_audience_ok a = true).
+Proof. exact release_audiences. Qed.
+
+(* NOT the code: a token handler that copies the code's access_audience into the ID token as well
+   (OIDC.p_id_widened: the "aud MAY contain other audiences" reading of OpenID Connect Core).  With a
+   client that may choose audiences the ID token then names a second party. *)
+Theorem c12_widened_idtoken_refuted : exists i t_a u a code now r idt act k,
+  authorize i t_a u a = Some code /\ token_endpoint i now (with_code r code) = Release idt act /\
+  dec_code (t_claims code) = Some k /\
+  lookup "aud" (t_claims idt) = Some (VList [ar_client a]) /\
+  lookup "aud" (t_claims (p_id_widened (srv i) now (ar_client a) k)) <> Some (VList [ar_client a]).
+Proof.
+  pose (a := with_audience (areq0 (b "clientA") [] []) (b "https://api.a.example") true).
+  pose (r := treq0 {| t_signer := 0%N; t_alg := 0%N; t_tampered := true; t_claims := [] |} (Some (b "clientA", b "secretA")) [] [] []).
+  destruct (authorize idp0 (1000 * NS) (b "alice") a) as [code|] eqn:A; [|vm_compute in A; discriminate A].
+  destruct (token_endpoint idp0 (1010 * NS) (with_code r code)) as [idt act|s] eqn:T;
+    [|vm_compute in A; inversion A; subst code; vm_compute in T; discriminate T].
+  exists idp0, (1000 * NS), (b "alice"), a, code, (1010 * NS), r, idt, act. eexists.
+  split; [exact A|]. split; [exact T|].
+  split; [apply (authorize_code _ _ _ _ _ A)|].
+  split.
+  - destruct (c12_idtoken_sole_audience _ _ _ _ _ T) as [_ L]. exact L.
+  - vm_compute. discriminate.
+Qed.
